@@ -212,8 +212,10 @@ Example help_hypotheses_hold :
   match build_app ex_cfg with
   | Ok a =>
     default_help_config ex_cfg = true /\ forallb lead_ok [SRV; ADD] = true /\ str_eqb SRV S_help = false /\
-    (exists b, walk (named_of (ap_cmds a)) None [SRV; ADD] = Ok (Some (b, [SERVER; ADD])) /\ defaults_of (b_subs b) = [] /\
-               exists x, parse (b_fmt b) true [SRV; ADD] = Ok x) /\
+    match walk (named_of (ap_cmds a)) None [SRV; ADD] with
+    | Ok (Some (b, p)) => p = [SERVER; ADD] /\ map b_name (defaults_of (b_subs b)) = [] /\
+                          match parse (b_fmt b) true [SRV; ADD] with Ok _ => True | Err _ => False end
+    | _ => False end /\
     sm_action (run_summary false a [SRV; ADD; T_help]) = AHelpCmd [SERVER; ADD] /\
     sm_action (run_summary false a [SRV; ADD; T_h]) = AHelpCmd [SERVER; ADD] /\
     sm_action (run_summary false a [SRV; ADD; T_version]) = AVersion [SERVER; ADD] /\
@@ -223,11 +225,13 @@ Example help_hypotheses_hold :
     sm_settings (run_summary false a [SRV; ADD; [DASH; DASH]; T_quiet; T_vvv]) = sm_settings (run_summary false a [SRV; ADD]) /\
     s_quiet (sm_settings (run_summary false a [SRV; T_quiet; ADD])) = true
   | Err _ => False end.
-Proof. vm_compute. repeat split; try reflexivity. eexists. repeat split; try reflexivity. eexists. reflexivity. Qed.
+Proof. vm_compute. repeat split. Qed.
 Example help_theorem_applied : forall a debug, build_app ex_cfg = Ok a ->
   match sm_action (run_summary debug a ([SRV; ADD] ++ [T_help])) with AHelpCmd _ | AHelpFail _ => True | _ => False end.
 Proof.
-  intros a debug Ha. apply (help_switch_after_path_shows_a_page_or_why_not ex_cfg a debug [SRV; ADD] T_help Ha); try reflexivity; [discriminate|now left].
+  intros a debug Ha.
+  apply (help_switch_after_path_shows_a_page_or_why_not ex_cfg a debug [SRV; ADD] T_help Ha);
+    [vm_compute; reflexivity|vm_compute; reflexivity|discriminate|vm_compute; reflexivity|now left].
 Qed.
 Example insertion_hypotheses_hold : is_ddash T_quiet = false /\ no_ddash [SRV; ADD] = true.
 Proof. vm_compute. split; reflexivity. Qed.
